@@ -616,10 +616,14 @@ def disconnect_path_iterates_snapshots(ctx):
             if isinstance(c.func, ast.Attribute) and dotted(c.func.value) == 'self' and c.func.attr in ci.methods:
                 todo.append(ci.methods[c.func.attr])
     n = 0
+    # (a list does not raise when another thread appends while it is iterated; dicts and sets do)
+    init = ci.methods.get('__init__')
+    lists = {t.attr for t, v, s_ in attr_stores(init.node) if isinstance(v, ast.List)} if init is not None else set()
+    tables = {'_subscriptions', '_active_connections', '_connections'} - lists
     for f in seen.values():
         for loop in [x for x in body_walk(f.node) if isinstance(x, (ast.For, ast.comprehension))]:
             it = loop.iter
-            if not any(isinstance(x, ast.Attribute) and x.attr in ('_subscriptions', '_active_connections', '_connections') and dotted(x.value) == 'self'
+            if not any(isinstance(x, ast.Attribute) and x.attr in tables and dotted(x.value) == 'self'
                        for x in ast.walk(it)):
                 continue
             n += 1
